@@ -355,7 +355,7 @@ impl Eval {
         context
             .eval_declaration_instantiation(&code_block)
             .inspect_err(|_| {
-                context.vm.pop_frame();
+                context.vm.pop_frame_and_truncate();
             })?;
 
         let record = context.run();
